@@ -72,9 +72,128 @@ CLAIMED = {
              "other than dangling ones, no permissions, no concurrent modification).",
         technique="Coq lemmas on the Glob model + differential correspondence on materialised trees + specification extracted from Coq as oracle",
         design="6 C16"),
+    "C01": dict(
+        text=("Proved: (1) the bail-out of both lexer goroutines never crashes the process under either panicnil setting -- what they panic with and "
+              "what run() filters is translated from the source on every run, so re-introducing panic(nil) breaks the theorem; (2) progress of the "
+              "two-goroutine protocol model: every reachable configuration can move, has returned, or is the here-document stand-off excluded by "
+              "construction; (3) the alias stack holds pairwise distinct names, so its depth is bounded by the table (cyclic tables terminate). NOT "
+              "proved: termination / panic-freedom of the 1700-line scanner itself; decided on every run by exhaustive inputs (all strings <=4 symbols "
+              "over 22 significant characters, <=3 over those plus reserved words, generated programs, mutants, truncations) in isolated workers under "
+              "panicnil=0 and 1, five source kinds, 14 alias tables, with a per-call watchdog."),
+        note=BASE_NOTE + "Modelled, not verified: Go runtime (recover, select, goroutines), bufio/strings readers. Termination is observed with a 3 s watchdog.",
+        technique="Coq theorems on the bail-out sentinel (translated), the protocol LTS (progress) and the alias stack + exhaustive crash/hang search in isolated workers",
+        design="6 C01"),
+    "C04": dict(
+        text=("Proved: the line/column bookkeeping of read() makes the cursor the character position of the consumed prefix (columns count characters), "
+              "unread() undoes exactly one read(). NOT proved: the offsets at the ~40 mark() sites and the derived Pos()/End() methods; decided on every "
+              "run by an intrinsic checker on (source, AST): the text at every stored position spells the documented token, Pos<=End, non-zero End, "
+              "children inside parents, siblings increasing, over generated programs in plain and rich layouts with multi-byte names. Known finding "
+              "F28 (here-document extent vs enclosing End()) is reported as KNOWN-FINDING."),
+        note=BASE_NOTE + "Sources without aliases, as the property states; documented exclusions: line continuations, Comment.End.",
+        technique="Coq cursor model theorems + intrinsic position checker on the implementation's ASTs",
+        design="6 C04"),
+    "C06": dict(
+        text=("Proved on the protocol model (lexer = deterministic emitting program, parser = deterministic automaton, unbuffered channel, cancel observed "
+              "at emit / here-document wait only, order-independent error slot, join before return), for all programs/automata: every two maximal "
+              "runs (schedules) end in the same configuration (strong diamond + generic confluence lemma); at return the lexer has exited and no step "
+              "is possible; nothing is delivered after cancellation. Tied to the code by hooks at every synchronisation point: each input runs under "
+              "perturbation seeds x GOMAXPROCS{1,2,16}; results must be identical; runtime monitors check the model's invariants (no delivery after "
+              "cancel, rendezvous count, every joined lexer exited); goroutine count and reader position after return; race-detector build."),
+        note=BASE_NOTE + "Not expressible in the model (named): the Go memory model, scheduler fairness, a blocking ReadRune. Interleavings on the real code are "
+             "perturbed, not enumerated.",
+        technique="Coq confluence proof of the protocol LTS + hook-driven schedule perturbation, runtime invariant monitors, race detector",
+        design="6 C06"),
+    "C07": dict(
+        text=("Proved for every program over the ReadRune/UnreadRune interface (the lexer is one), every source and state: text beyond the inspected "
+              "prefix influences neither result, outputs nor final reader position (prefix locality); the reader never stands beyond what was inspected. "
+              "NOT proved: that the lexer stops exactly after the terminating newline of one complete command; decided on every run on concatenated "
+              "streams of 2-6 generated command lines through a custom RuneScanner and a strings.Reader (offset after each call, result equal to the "
+              "separate parse, blank lines empty) and by re-parsing each command with arbitrary text substituted beyond its inspected prefix."),
+        note=BASE_NOTE + "Trusted: that all input of the lexer goes through read()/unread() (grep-checked).",
+        technique="Coq prefix-locality theorem for effect programs + stream consumption and prefix-substitution checks on the implementation",
+        design="6 C07"),
+    "C08": dict(
+        text=("Proved: under every schedule of the protocol model redirections are popped in push order (k-th body to k-th operator); for a quoted "
+              "delimiter the reader model returns every body whose lines differ from the delimiter byte for byte (empty first line included), recognises "
+              "the tab-indented delimiter for <<-, stops right after it, and reports a missing delimiter as an error. The reader model is tied to "
+              "lexHeredoc by correspondence (body, delimiter line, unread rest, error) on random literal here-documents. NOT proved: expanding bodies "
+              "and delimiter quote removal; decided by the generator-driven check (expected operator, body, delimiter line, quoting per here-document "
+              "in source order, at every redirection site)."),
+        note=BASE_NOTE + "Backslash-newline inside an expanding body is a line continuation (removed), treated like the documented exclusion of C04.",
+        technique="Coq FIFO theorem (protocol LTS) and literal-body reader theorems with correspondence + generator-driven here-document check",
+        design="6 C08"),
+    "C10": dict(
+        text=("Proved: the error slot's merge rule (translated concept: rank 0 read error, 1+position syntax errors, keep the minimum) keeps the read "
+              "error whatever is reported before or after it, in any order; the reader interpreter notices every failing read. Tied to the code by "
+              "the complete set of single-fault positions of generated programs and short strings through a fault-injecting RuneScanner that records "
+              "whether the failing read was reached."),
+        note=BASE_NOTE + "io.Reader sources go through bufio (forwards the error); only the RuneScanner kind carries the injector.",
+        technique="Coq sticky-error theorem on the slot merge + exhaustive single-fault injection on the implementation",
+        design="6 C10"),
+    "C15": dict(
+        text=("Proved for every rune string, every following text (end of input / blank / operator), every environment and every mode that consults no "
+              "pathname oracle: the scanner model returns one word for the single-quoted, double-quoted (with $ ` \" \\ escaped) and backslash-each "
+              "renderings, and expanding it yields exactly one field equal to the string (escaped in Pattern mode), store unchanged; any word of such "
+              "quoted parts (mixed style) expands to the concatenation. The scanner model is tied to the lexer by comparing the word AST the parser "
+              "builds for every string <=2 (thorough 3) symbols over 30 special characters in the three styles; the expansion model by C13/C14's "
+              "correspondence. NOT proved: default mode with pathname expansion enabled (observed with matching files present)."),
+        note=BASE_NOTE + "The scanner model covers the quoting fragment only ($, backquote, # at word start are outside it).",
+        technique="Coq round-trip theorems (scanner model + expansion model) + scanner correspondence + adversarial-environment expansion check",
+        design="6 C15"),
+    "C17": dict(
+        text=("Proved: the stack of aliases being expanded holds pairwise distinct alias names, its depth is bounded by the table, a name is never "
+              "expanded inside its own expansion (termination for every table incl. cycles). NOT proved: equality with textual replacement; decided on "
+              "every run: command structures rendered folded (alias names at command position) and unfolded (reference replacement incl. chains, "
+              "cycles, chained trailing blanks) from the same random stream must parse to the same skeleton; alias names as arguments, quoted, "
+              "as assignment words are never replaced."),
+        note=BASE_NOTE + "The reference replacement is the generator's own implementation of the rule in the property text (validated against bash and dash while building).",
+        technique="Coq alias-stack theorems + folded/unfolded differential check on the implementation",
+        design="6 C17"),
+    "C18": dict(
+        text=("Proved: a writer failing before the whole output is accepted is reported by the buffered writer for every write sequence and buffering "
+              "schedule; the temporarily hidden separators are all restored by the deferred undos in any nesting, also when a node is trimmed twice. "
+              "NOT proved: idempotence of the layout; decided on every run: print(parse(print t)) = print t, two prints equal, deep dump of the tree "
+              "unchanged, writers failing after every k, over generated programs x 16 pairwise-covering Configs (every 16th program: all 256)."),
+        note=BASE_NOTE + "bufio is abstracted to an arbitrary flush schedule.",
+        technique="Coq theorems on the buffered-writer and trim/undo models + print/parse/print fix-point check under all styles",
+        design="6 C18"),
+    "C19": dict(
+        text=("Proved: Option.String is total on every bit combination (loop bound translated from the source on every run). NOT proved: totality of "
+              "printer / Pos / End / Expand on parser-produced ASTs and of Eval / Match / Glob on arbitrary strings; decided on every run in isolated "
+              "workers: every accepted source among all strings <=3 significant characters, an oddities corpus and generated programs through Pos/End "
+              "of every node, Fprint x 256 Configs, Expand x 8 modes x 3 option sets x 2 argument vectors; Eval / Match (16 modes) / Glob on all strings "
+              "<=2 symbols over a 31-symbol alphabet plus random longer ones; all 2^14 Option values."),
+        note=BASE_NOTE + "Absence of panics is observed, not proved, for the entry points other than Option.String.",
+        technique="Coq totality theorem for Option.String + downstream no-panic search in isolated workers",
+        design="6 C19"),
 }
 
-PENDING_REASON = "check under construction in this session; not claimed until its theorems and correspondence run green"
+EXPLORATION = {
+    "C03": dict(
+        text=("No theorem yet (the grammar model is under construction). Decided on every run, implementation side only: for all single-token mutations "
+              "of generated programs, truncations, and all strings <=3 symbols over 22 characters + 13 reserved words: a reported syntactic failure is a "
+              "parser.Error with the caller's name and a line:column inside the consumed text designating the start of a token. The acceptance side "
+              "(no ill-formed program accepted) is not decided by this check."),
+        note="Implementation-side test; no model. bash/dash were used as reference recognisers while building, not in the check.",
+        technique="exploration: located-error check on token-level mutants (no proof yet)",
+        design="6 C03"),
+    "C05": dict(
+        text=("No theorem yet (the printer model is under construction). Decided on every run, implementation side: generated programs (every compound "
+              "construct, here-documents inside them, comments, reserved words after closing tokens) x 16 pairwise-covering Configs (every 16th: all 256): "
+              "the printed text is accepted and has the same skeleton (';' ~ newline, adjacent literals merged)."),
+        note="Implementation-side metamorphic test; no model.",
+        technique="exploration: print -> parse round trip under all styles (no proof yet)",
+        design="6 C05"),
+    "C09": dict(
+        text=("No theorem yet (the lexer model is under construction). Decided on every run, implementation side: each program structure rendered under a "
+              "plain and a rich layout (extra blanks, tabs, comments before newlines and on own lines, backslash-newline between tokens, newline for ';', "
+              "blank lines) from independent layout streams must parse to the same skeleton and return exactly its own comments in order."),
+        note="Implementation-side metamorphic test; no model.",
+        technique="exploration: layout metamorphic check (no proof yet)",
+        design="6 C09"),
+}
+
+PENDING_REASON = "not claimed yet: needs the grammar/lexer model as an independent oracle for the expected AST (under construction); no technique switch intended"
 
 
 def main():
@@ -82,8 +201,8 @@ def main():
     checks, na = [], []
     for p in props:
         pid = p["id"]
-        if pid in CLAIMED:
-            c = CLAIMED[pid]
+        if pid in CLAIMED or pid in EXPLORATION:
+            c = CLAIMED.get(pid) or EXPLORATION[pid]
             checks.append({
                 "property_id": pid,
                 "quick_cmd": "python3 tools/check.py %s --tier quick" % pid,
@@ -91,7 +210,7 @@ def main():
                 "evidence_file": "/verif/evidence/%s.json" % pid,
                 "replay_cmd_template": "python3 tools/check.py %s --replay {path}" % pid,
                 "engine": "coq-proof+correspondence",
-                "level_claimed": {"category": "proof", "text": c["text"], "design_ref": "DESIGN.md section " + c["design"]},
+                "level_claimed": {"category": "proof" if pid in CLAIMED else "exploration", "text": c["text"], "design_ref": "DESIGN.md section " + c["design"]},
                 "level_note": c["note"],
                 "technique": c["technique"],
             })
